@@ -51,7 +51,7 @@ class _MetricFunctionWrapper(BaseEstimator):
         self.name = name if name is not None else func.__name__
         self.greater_is_better = greater_is_better
 
-    def __call__(self, y_true, y_pred):
+    def __call__(self, y_true, y_pred, **kwargs):
         """Returns calculated loss metric by passing `y_true` and `y_pred` to
         underlying metric function.
 
@@ -65,6 +65,9 @@ class _MetricFunctionWrapper(BaseEstimator):
                 where fh is the forecasting horizon
             Estimated target values.
 
+        **kwargs : additional data required by the underlying metric function,
+            e.g. `y_pred_benchmark` for relative error metrics.
+
         Returns
         -------
         loss : float
@@ -72,7 +75,7 @@ class _MetricFunctionWrapper(BaseEstimator):
             returns the negative of the metric. If `greater_is_better` attribute
             is False the metric is returned.
         """
-        return self._func(y_true, y_pred)
+        return self._func(y_true, y_pred, **kwargs)
 
 
 class _PercentageErrorMixin:
@@ -103,7 +106,7 @@ class _PercentageErrorMixin:
 
 
 class _SquaredErrorMixin:
-    def __call__(self, y_true, y_pred):
+    def __call__(self, y_true, y_pred, **kwargs):
         """Returns calculated loss metric by passing `y_true` and `y_pred` to
         underlying metric function.
 
@@ -126,7 +129,7 @@ class _SquaredErrorMixin:
         loss : float
             Calculated loss metric
         """
-        return self._func(y_true, y_pred, square_root=self.square_root)
+        return self._func(y_true, y_pred, square_root=self.square_root, **kwargs)
 
 
 class _SquaredPercentageErrorMixin:
@@ -192,7 +195,7 @@ class _AsymmetricErrorMixin:
 
 
 class _RelativeLossMixin:
-    def __call__(self, y_true, y_pred):
+    def __call__(self, y_true, y_pred, y_pred_benchmark):
         """Returns calculated loss metric by passing `y_true` and `y_pred` to
         underlying metric function.
 
@@ -214,7 +217,8 @@ class _RelativeLossMixin:
         return self._func(
             y_true,
             y_pred,
-            loss_function=self._relative_func,
+            y_pred_benchmark,
+            relative_loss_function=self.relative_loss_function,
         )
 
 
@@ -222,6 +226,12 @@ class _ScaledMetricFunctionWrapper(_MetricFunctionWrapper):
     def __init__(self, func, name=None, greater_is_better=False, sp=1):
         self.sp = sp
         super().__init__(func=func, name=name, greater_is_better=greater_is_better)
+
+    def __call__(self, y_true, y_pred, y_train):
+        """Returns calculated loss metric by passing `y_true`, `y_pred` and the
+        training series `y_train` used for scaling to underlying metric function.
+        """
+        return self._func(y_true, y_pred, y_train, sp=self.sp)
 
 
 class _ScaledSquaredMetricFunctionWrapper(_SquaredErrorMixin, _MetricFunctionWrapper):
@@ -231,6 +241,14 @@ class _ScaledSquaredMetricFunctionWrapper(_SquaredErrorMixin, _MetricFunctionWra
         self.sp = sp
         self.square_root = square_root
         super().__init__(func=func, name=name, greater_is_better=greater_is_better)
+
+    def __call__(self, y_true, y_pred, y_train):
+        """Returns calculated loss metric by passing `y_true`, `y_pred` and the
+        training series `y_train` used for scaling to underlying metric function.
+        """
+        return self._func(
+            y_true, y_pred, y_train, sp=self.sp, square_root=self.square_root
+        )
 
 
 class _PercentageMetricFunctionWrapper(_PercentageErrorMixin, _MetricFunctionWrapper):
